@@ -252,6 +252,12 @@ impl World {
         for (i, r) in routers.iter().enumerate() {
             let dist = i as u32 + 1;
             let remaining = ttl - (dist - 1);
+            if let Some((at, words)) = self.sc.net.ip_options {
+                if at == dist && dg[0] >> 4 == 4 && dg[0] & 0x0f == 5 && words > 0 {
+                    insert_ip_options(&mut dg, words.min(10));
+                    self.counters.add("fault.ip_options_inserted", 1);
+                }
+            }
             if remaining <= 1 {
                 // expires at router `dist`
                 if let Some(nat) = r.nat {
@@ -311,9 +317,42 @@ impl World {
                     // the error too (EHOSTUNREACH), which the tracer ignores
                     let remaining = (ttl - (dist - 1)).min(255) as u8;
                     let at = clock::now() + self.sc.net.hop_delay_ns * u64::from(dist) * 2;
-                    self.socks[sock].tcp = TcpState::Failed { at, errno: libc::EHOSTUNREACH };
                     self.counters.add("reach.tcp_rejected_by_icmp", 1);
                     self.icmp_error_from(id, &dg, from, dist, RespKind::Unreachable, code, t.quote, &t.layout, remaining, 0, false);
+                    // "port unreachable" is a hard error for a connecting socket (Linux maps
+                    // it to ECONNREFUSED): the same probe is then answered twice, first by
+                    // the ICMP message on the raw socket, then by the refusal on its own
+                    // socket; every other code leaves the socket with an error the tracer
+                    // ignores
+                    let port_unreachable = if d.v6 { code == 4 } else { code == 3 };
+                    if port_unreachable {
+                        self.counters.add("reach.tcp_refused_after_icmp", 1);
+                        let rid = self.deliver(RespRec {
+                            id: 0,
+                            wire_id: Some(id),
+                            class: RespClass::Genuine,
+                            kind: RespKind::Rst,
+                            code: 0,
+                            responder: self.sc.tracer.target,
+                            quoted_tos: None,
+                            exts: None,
+                            ambiguous_ext: false,
+                            rfc4884_len: 0,
+                            quoted_udp_csum: None,
+                            t_arrive: at,
+                            handed: None,
+                            bytes: None,
+                            src: None,
+                            note: "tcp-refused-after-icmp",
+                            kept: None,
+                            replay_of_wire: None,
+                            dgram_len: 0,
+                            rewritten: (false, false),
+                        });
+                        self.socks[sock].tcp = TcpState::Refused { at, resp: rid };
+                    } else {
+                        self.socks[sock].tcp = TcpState::Failed { at, errno: libc::EHOSTUNREACH };
+                    }
                     return;
                 }
                 let Some(t_arrive) = self.arrival(dist, 0) else {
@@ -482,8 +521,10 @@ impl World {
             let orig = &self.wires[wire_id].bytes;
             let v6 = dg[0] >> 4 == 6;
             let (a0, a1, l4) = if v6 { (8, 24, 40) } else { (12, 16, usize::from(dg[0] & 0x0f) * 4) };
+            // the datagram as sent may have a shorter header (options inserted in transit)
+            let o4 = if v6 { 40 } else { usize::from(orig.first().copied().unwrap_or(0x45) & 0x0f) * 4 };
             let addr = orig.len() >= a1 && dg.len() >= a1 && orig[a0..a1] != dg[a0..a1];
-            let port = orig.len() >= l4 + 2 && dg.len() >= l4 + 2 && orig[l4..l4 + 2] != dg[l4..l4 + 2];
+            let port = orig.len() >= o4 + 2 && dg.len() >= l4 + 2 && orig[o4..o4 + 2] != dg[l4..l4 + 2];
             (addr, port)
         };
         let rec = RespRec {
@@ -670,6 +711,23 @@ pub struct BuiltError {
     /// Offset of the ICMP message / the extension structure inside `bytes`.
     pub icmp_off: usize,
     pub ext_off: Option<usize>,
+}
+
+/// Insert `words` 32-bit words of no-operation options into an IPv4 datagram with a plain
+/// header: header length, total length and header checksum follow.
+fn insert_ip_options(dg: &mut Vec<u8>, words: u8) {
+    let n = usize::from(words) * 4;
+    let mut opts = vec![1u8; n];
+    // end-of-option-list in the last octet, as a padded option field looks on the wire
+    opts[n - 1] = 0;
+    let tail = dg.split_off(20);
+    dg.extend_from_slice(&opts);
+    dg.extend_from_slice(&tail);
+    dg[0] = 0x40 | (5 + words);
+    let total = (dg.len() as u16).to_be_bytes();
+    dg[2] = total[0];
+    dg[3] = total[1];
+    wire::fix_ipv4_checksum(dg);
 }
 
 /// Build the datagram a responder at `from` sends to `host` for the offending datagram `dg`.
